@@ -139,6 +139,176 @@ pub static C05: E1Prop = E1Prop {
     extra: Some(crate::enums::c05_extra),
 };
 
+fn gen_c08(t: &mut Tape, l: &mut Vec<&'static str>) -> Option<Case> {
+    gen_standard(t, l, GenOpts { ignores: true, ..GenOpts::stmt_comments() }, false, false)
+}
+
+pub static C08: E1Prop = E1Prop {
+    id: "C08",
+    oracle: |c, o, _| oracle::c08(c, o),
+    rule: "T0 (corpus files with ignore directives x catalogue) + T1: generated programs with `-- stylua: ignore` before any statement kind at any depth and before table fields, `ignore start` / `ignore end` regions (closed, unclosed, end without start), ignored code rendered with odd spacing, with / without `;` and trailing comments, all configurations (sort_requires off). Oracle: the checker computes the ignored nodes from the INPUT by the documented rule (directive line in the leading comments; region state per block / table); each node's source slice [first token .. last token, plus `;` for statements] must occur verbatim in the output, in order, at the same position in the semantic token sequence; and every top-level statement that neither contains nor neighbours an ignored node equals its text in the output obtained with the directives neutralised. Non-trivial: at least one ignored slice would have been changed by the formatter.",
+    gen_case: gen_c08,
+    quick_cases: 120_000,
+    thorough_cases: 2_000_000,
+    use_t0: true,
+    tape_len: 600,
+    assumptions: &["sort_requires is off (its interaction with ignore regions is the listed finding KF-C08-sort-ignore-region)", "a directive counts when a line of a leading comment, trimmed, equals the directive (README + context.rs)"],
+    extra: None,
+};
+
+fn gen_c09(t: &mut Tape, l: &mut Vec<&'static str>) -> Option<Case> {
+    let mode = t.pick(12);
+    let i = t.pick_wide(1 << 16);
+    let j = t.pick_wide(1 << 16);
+    let nudge = t.pick(5);
+    let requires = t.chance(40);
+    let mut case = if requires {
+        // require blocks with sorting on: a group that is not wholly inside the range must not move
+        use crate::lex::Syntax;
+        let syn = if t.chance(90) { Syntax::Luau } else { Syntax::Lua51 };
+        let mut cfg = crate::cfg::gen_cfg(t, syn);
+        cfg.sort_requires = true;
+        l.push("sort-requires-with-range");
+        let src = crate::genreq::generate(t, syn, &crate::genreq::ReqOpts { ignores: false, regions: false }, l);
+        Case::new(src, cfg)
+    } else {
+        gen_standard(t, l, GenOpts::stmt_comments(), false, false)?
+    };
+    let syn = case.cfg.syntax;
+    let ast = crate::engine::guarded(|| crate::norm::parse(&case.source, syn)).ok()?.ok()?;
+    let json = serde_json::to_value(ast.nodes()).ok()?;
+    let mut stmts = Vec::new();
+    crate::model::all_statements(&json, 0, &mut stmts);
+    let n = case.source.len();
+    if stmts.is_empty() {
+        case.range = Some((Some(i * (n + 1) >> 16), Some(j * (n + 1) >> 16)));
+        return Some(case);
+    }
+    let a = &stmts[(i * stmts.len()) >> 16];
+    let b = &stmts[(j * stmts.len()) >> 16];
+    let (lo, hi) = if a.start <= b.start { (a, b) } else { (b, a) };
+    case.range = Some(match mode {
+        0 | 1 | 2 => {
+            l.push("range:one-statement");
+            (Some(a.start), Some(a.end_semi))
+        }
+        3 | 4 => {
+            l.push("range:statement-run");
+            (Some(lo.start), Some(hi.end_semi.max(lo.end_semi)))
+        }
+        5 => {
+            l.push("range:mid-token");
+            (Some(a.start + 1), Some(a.end_semi + 20))
+        }
+        6 => {
+            l.push("range:nudged");
+            (Some(a.start.saturating_sub(nudge)), Some(a.end_semi + nudge))
+        }
+        7 => {
+            l.push("range:open-start");
+            (None, Some(a.end_semi))
+        }
+        8 => {
+            l.push("range:open-end");
+            (Some(a.start), None)
+        }
+        9 => {
+            l.push("range:empty-or-inverted");
+            (Some(hi.start), Some(lo.start))
+        }
+        10 => {
+            l.push("range:whole-file");
+            (Some(0), Some(n + 5))
+        }
+        _ => {
+            l.push("range:random-offsets");
+            (Some((i * (n + 1)) >> 16), Some((j * (n + 1)) >> 16))
+        }
+    });
+    if a.depth > 0 {
+        l.push("range:nested-statement");
+    }
+    Some(case)
+}
+
+/// Known finding KF-C09-typed-local-span: full_moon reports the end of `local x: T` (no value) at the last
+/// name, so a range ending inside the type annotation still counts the statement as inside.
+fn typed_local_cut_by_range(case: &Case) -> bool {
+    let Some((_, Some(e))) = case.range else { return false };
+    let Ok(Ok(ast)) = crate::engine::guarded(|| crate::norm::parse(&case.source, case.cfg.syntax)) else { return false };
+    let Ok(json) = serde_json::to_value(ast.nodes()) else { return false };
+    fn walk(v: &serde_json::Value, e: usize, hit: &mut bool) {
+        match v {
+            serde_json::Value::Object(m) => {
+                if let Some(la) = m.get("LocalAssignment") {
+                    let no_value = la.get("equal_token").map_or(true, |t| t.is_null());
+                    let typed = la.get("type_specifiers").and_then(|t| t.as_array()).map_or(false, |a| a.iter().any(|x| !x.is_null()));
+                    if no_value && typed {
+                        if let (Some((_, names_end)), Some((_, full_end))) = (crate::model::span(&la["name_list"]), crate::model::span(la)) {
+                            if e + 1 >= names_end && e + 1 < full_end + 1 {
+                                *hit = true;
+                            }
+                        }
+                    }
+                }
+                for (_, x) in m {
+                    walk(x, e, hit);
+                }
+            }
+            serde_json::Value::Array(a) => {
+                for x in a {
+                    walk(x, e, hit);
+                }
+            }
+            _ => {}
+        }
+    }
+    let mut hit = false;
+    walk(&json, e, &mut hit);
+    hit
+}
+
+pub static C09: E1Prop = E1Prop {
+    id: "C09",
+    oracle: |c, o, _| {
+        let v = oracle::c09(c, o);
+        if v.is_fail() && typed_local_cut_by_range(c) {
+            return Verdict::Skip("KF-C09-typed-local-span");
+        }
+        v
+    },
+    rule: "T1: generated programs x ranges derived from the statement spans of the trusted parse (exactly one statement at any depth, a run of statements, mid-token, nudged by 0-4 bytes, open-ended on either side, empty / inverted, whole file, random offsets). Oracle: statements are classified inside / outside by the documented rule (a statement ending exactly one byte past the end bound is left unclaimed: README and implementation disagree there); (1) the text before the first and after the last affected statement is unchanged, (2) every outside statement keeps its source text piecewise around affected descendants, located at the same semantic-token position, (3) every outermost inside statement has the same text as in a whole-file run (aligned through the token sequence T), (4) if no statement is inside, the text up to the last token is unchanged. Non-trivial: at least one statement inside and one outside, the inside one compared against the whole-file run, and the output differs from the input.",
+    gen_case: gen_c09,
+    quick_cases: 120_000,
+    thorough_cases: 2_000_000,
+    use_t0: false,
+    tape_len: 600,
+    assumptions: &["sort_requires off and no ignore directives (their interplay with ranges is outside the statement of C09)", "the EOF trivia is only claimed unchanged when the text after the last affected statement contains a further token"],
+    extra: None,
+};
+
+fn gen_c12(t: &mut Tape, l: &mut Vec<&'static str>) -> Option<Case> {
+    use crate::lex::Syntax;
+    let syn = if t.chance(90) { Syntax::Luau } else { Syntax::Lua51 };
+    let mut cfg = crate::cfg::gen_cfg(t, syn);
+    cfg.sort_requires = !t.chance(50);
+    let src = crate::genreq::generate(t, syn, &crate::genreq::ReqOpts { ignores: true, regions: false }, l);
+    Some(Case::new(src, cfg))
+}
+
+pub static C12: E1Prop = E1Prop {
+    id: "C12",
+    oracle: |c, o, _| oracle::c12(c, o),
+    rule: "T0 (corpus x catalogue, sort_requires on in two catalogue entries) + T1: generated top levels interleaving `local NAME = require(...)` / `game:GetService(...)` (14-name pool with duplicates, mixed case and common prefixes; string / path / sugar / multi-line / indexed / concatenated arguments; `:: T`; `;`; trailing and leading comments) with other statements, multi-name locals, blank lines and `-- stylua: ignore`, sort_requires on (80 %) and off. Oracle: an independent model of the README rule (groups = maximal runs of same-kind requires on adjacent lines; stable sort by NAME in byte order; a group with an ignored or out-of-range member is left alone) gives the expected permutation; the per-statement normal forms of the output must equal the permuted normal forms of the input, the last statement is unchanged, and the comment census is unchanged. Non-trivial: at least two require statements and the expected permutation is not the identity (or the option is off).",
+    gen_case: gen_c12,
+    quick_cases: 100_000,
+    thorough_cases: 2_000_000,
+    use_t0: true,
+    tape_len: 300,
+    assumptions: &["`-- stylua: ignore start/end` regions are excluded: require sorting does not honour them (known finding KF-C12-ignore-region, DESIGN D20)"],
+    extra: None,
+};
+
 pub fn e1_prop(id: &str) -> Option<&'static E1Prop> {
     match id {
         "C01" => Some(&C01),
@@ -148,7 +318,10 @@ pub fn e1_prop(id: &str) -> Option<&'static E1Prop> {
         "C05" => Some(&C05),
         "C06" => Some(&C06),
         "C07" => Some(&C07),
+        "C08" => Some(&C08),
+        "C09" => Some(&C09),
         "C10" => Some(&C10),
+        "C12" => Some(&C12),
         "C11" => Some(&C11),
         _ => None,
     }
